@@ -207,6 +207,16 @@ def _exec_case(case):
                             fq = O.QT8[names8[(names8.index(aq.name) + 1 + case["seed"] % 2) % 3]]
                             s_in = (x.abs().max() / float(O.grid(fq)[-1]) * [1.0, 1.7, 0.6][nb % 3]).to(dtype)
                         fed = quantize_activation(x, fq, torch.where(s_in > 0, s_in, torch.ones_like(s_in)))
+                        if case["seed"] % 5 == 2 and fq == aq and x.ndim == 2 and x.shape[0] > 1:
+                            # ... or quantized PER-AXIS along the batch axis (one scale per sample, ranges far apart): the module
+                            # adopts the largest scale and requantizes such an input per-tensor before it computes
+                            from optimum.quanto import quantize_weight as _qw
+
+                            rows = torch.tensor([[50.0], [1.0], [0.02]], dtype=torch.float64)[: x.shape[0]]
+                            xr = gen.clamp_finite(x.to(torch.float64) * rows, dtype)
+                            pa = cut(_qw, xr, aq, 0)
+                            if isinstance(pa, QBytesTensor) and pa.axis == 0 and bool((pa._scale > 0).all()):
+                                fed = pa
                     seen.clear()
                     before = {n: (m.input_scale.detach().clone(), m.output_scale.detach().clone(), m.activation_qtype) for n, m in qmods}
                     with torch.set_grad_enabled(not case["no_grad"]):
@@ -240,7 +250,7 @@ def _exec_case(case):
                                     new = float(inp.detach().to(torch.float64).abs().max()) / qmax
                                     ntol = 2 * u * new + gen.ETA[dtype]
                             else:
-                                if isinstance(inp, QBytesTensor) and inp.qtype == aq:
+                                if isinstance(inp, QBytesTensor) and inp.qtype == aq and inp.axis is None:
                                     x_in = inp.dequantize().detach()
                                 elif isinstance(inp, QBytesTensor):
                                     x_in = quantize_activation(inp.dequantize().detach(), aq, m.input_scale.detach()).dequantize()
@@ -253,7 +263,7 @@ def _exec_case(case):
                                     out.discard = True  # the float module itself overflows the dtype on this batch
                                     return out
                                 new = float(raw.abs().max()) / qmax
-                                s_used = inp._scale.detach().to(torch.float64).max() if isinstance(inp, QBytesTensor) and inp.qtype == aq else m.input_scale.detach().to(torch.float64)
+                                s_used = inp._scale.detach().to(torch.float64).max() if isinstance(inp, QBytesTensor) and inp.qtype == aq and inp.axis is None else m.input_scale.detach().to(torch.float64)
                                 extra = 0.0 if isinstance(m, torch.nn.LayerNorm) else scale_product_term(m, s_used, x_in, dtype)
                                 ntol = (float(bound.max()) + extra) / qmax + 2 * u * new + gen.ETA[dtype]
                             if not (new == new and abs(new) != float("inf")) or not bool(torch.isfinite(got_t).all()) and not bool(torch.isfinite(torch.as_tensor(new))):
